@@ -808,25 +808,7 @@ func runC16(c *eng.Ctx) {
 	// (a calculator whose family START is taken from the local calendar - time.Date(…, time.Local): a day, a month - must take the
 	// END from the calendar too; "start + 24h - 1" is the end of that day only when the day has 24 hours. On a 25-hour day the
 	// group's own range excludes the row that opened it and HasNextFamily ends the shard's iteration: the rest is dropped)
-	c.Rule("SYMMETRY", "pkg/timeutil{family end computed like family start}", func() {
-		calendar := func(f *ssa.Function) bool {
-			return len(p.Sites(f, eng.CallTo("time.Date"))) > 0 || len(p.Sites(f, eng.AnyCallTo("time.Time.AddDate"))) > 0
-		}
-		n := 0
-		for _, t := range []string{"day", "month", "year"} {
-			st := p.Func("pkg/timeutil." + t + ".CalcFamilyStartTime")
-			en := p.Func("pkg/timeutil." + t + ".CalcFamilyEndTime")
-			if st == nil || en == nil {
-				continue
-			}
-			n++
-			c.Check(calendar(st) == calendar(en), "start-and-end-agree:"+t, nil, en,
-				"the "+t+" calculator computes the family end through the calendar exactly when it computes the family start through the calendar", fmt.Sprintf("start uses the calendar: %v, end: %v", calendar(st), calendar(en)))
-		}
-		if n < 3 {
-			c.Undecided("unresolved anchor: expected the day, month and year calculators, found %d", n)
-		}
-	})
+	familyEndLikeStart(c)
 
 	// ---- 6b. a failed shard/family write of a batch is reported: the error the batch write returns is sticky -----------------------
 	c.Rule("ERRFLOW", "replica.databaseChannel.Write{a failed family write is not forgotten}", func() {
@@ -888,5 +870,28 @@ func runC16(c *eng.Ctx) {
 		_, stale := eng.Reaches(f, hn.Instr, []eng.Site{pl}, rs)
 		c.Check(!stale, "reset-before-every-line", pl.Instr, f,
 			"on every path from the loop test to parseInfluxLine the builder was reset: tags / fields a rejected line already added can not leak into the next row", "parseInfluxLine is reachable from cr.HasNext() without rowBuilder.Reset()")
+	})
+}
+
+func familyEndLikeStart(c *eng.Ctx) {
+	p := c.P
+	c.Rule("SYMMETRY", "pkg/timeutil{family end computed like family start}", func() {
+		calendar := func(f *ssa.Function) bool {
+			return len(p.Sites(f, eng.CallTo("time.Date"))) > 0 || len(p.Sites(f, eng.AnyCallTo("time.Time.AddDate"))) > 0
+		}
+		n := 0
+		for _, t := range []string{"day", "month", "year"} {
+			st := p.Func("pkg/timeutil." + t + ".CalcFamilyStartTime")
+			en := p.Func("pkg/timeutil." + t + ".CalcFamilyEndTime")
+			if st == nil || en == nil {
+				continue
+			}
+			n++
+			c.Check(calendar(st) == calendar(en), "start-and-end-agree:"+t, nil, en,
+				"the "+t+" calculator computes the family end through the calendar exactly when it computes the family start through the calendar", fmt.Sprintf("start uses the calendar: %v, end: %v", calendar(st), calendar(en)))
+		}
+		if n < 3 {
+			c.Undecided("unresolved anchor: expected the day, month and year calculators, found %d", n)
+		}
 	})
 }
